@@ -113,6 +113,7 @@ func GenConfig(r *Rng, store string) Config {
 	if r.Chance(1, 4) {
 		c.MaxIdxCid = 40
 	}
+	c.ZeroEOF = r.Chance(1, 5)
 	nroots := Pick(r, []int{0, 1, 1, 1, 2, 3})
 	c.Roots = []BlkSpec{}
 	for i := 0; i < nroots; i++ {
